@@ -23,6 +23,8 @@ def tie(ctx):
     n = 0
     for _ in range(ctx.budget(6, 60)):
         case = gen(rng)
+        if case.get("c13_multinet"):
+            continue
         real = run_series(case)
         if real is None:
             continue
@@ -49,6 +51,8 @@ def tie(ctx):
 
 
 def gen(rng):
+    if rng.random() < 0.15:
+        return {"c13_multinet": True, "seed": int(rng.integers(0, 2 ** 31))}
     s = netgen.gen_hydraulic(rng, n_junc=int(rng.integers(3, 9)), fluid="water", features={"p_outage": 0.1, "p_special": 0.1})
     s["options"] = dict(s["options"], friction_model="nikuradse", nonlinear_method="constant", max_iter_hyd=40)
     while len(s["sinks"]) < 2:
@@ -120,6 +124,8 @@ def run_series(case):
 
 
 def oracle(case):
+    if case.get("c13_multinet"):
+        return multinet_series(case)
     real = run_series(case)
     fails = []
     steps = case["c13"]["steps"]
@@ -161,6 +167,70 @@ def oracle(case):
             "tags": ["continue" if case["c13"]["continue"] else "stop", "div:%d" % min(n_div, 2)],
             "sample": {"net": netgen.summarize(case), "steps": steps, "infeasible": case["c13"]["infeasible"], "outage": case["c13"].get("outage", []),
                        "continue": case["c13"]["continue"]}}
+
+
+def _gas_member(pp, fluid, p_bar):
+    net = pp.create_empty_network(fluid=fluid)
+    j = pp.create_junctions(net, 3, pn_bar=p_bar, tfluid_k=283.15)
+    pp.create_ext_grid(net, j[0], p_bar=p_bar, t_k=283.15)
+    pp.create_pipe_from_parameters(net, j[0], j[1], 0.8, 200.0)
+    pp.create_pipe_from_parameters(net, j[1], j[2], 0.6, 150.0)
+    pp.create_sink(net, j[2], 0.05)
+    return net, j
+
+
+def multinet_series(case):
+    """multi-energy time series: three gas nets, two gas-to-gas couplings out of net `a` into `b` and `c` (same level, different
+    orders), a profile on the coupled sinks of `a`; every logged step of `b` and `c` equals a stand-alone pipeflow on a fresh
+    member net carrying the converted feed-in of that step"""
+    import pandapipes as pp
+    import pandapower.control as control
+    from pandapower.timeseries import DFData, OutputWriter
+    from pandapipes.multinet.create_multinet import create_empty_multinet, add_nets_to_multinet
+    from pandapipes.multinet.control.controller.multinet_control import GasToGasConversion
+    from pandapipes.multinet.timeseries.run_time_series_multinet import run_timeseries as run_ts_mn
+    rng = np.random.default_rng(case["seed"])
+    fluids = [str(x) for x in rng.choice(["hgas", "lgas", "methane", "hydrogen"], 3, replace=False)]
+    (a, ja), (b, jb), (c, jc) = (_gas_member(pp, fluids[0], 30.0), _gas_member(pp, fluids[1], 20.0), _gas_member(pp, fluids[2], 16.0))
+    mn = create_empty_multinet("verif_ts")
+    add_nets_to_multinet(mn, a=a, b=b, c=c)
+    hhv = {k: float(np.ravel(pp.get_fluid(n).get_property("hhv"))[0]) for k, n in (("a", a), ("b", b), ("c", c))}
+    s1, s2 = pp.create_sink(a, ja[2], 0.01), pp.create_sink(a, ja[1], 0.01)
+    src_b, src_c = pp.create_source(b, jb[2], 0.0), pp.create_source(c, jc[1], 0.0)
+    e1, e2 = float(rng.uniform(0.5, 0.95)), float(rng.uniform(0.5, 0.95))
+    orders = [0, 1] if rng.random() < 0.5 else [1, 0]
+    GasToGasConversion(mn, s1, src_b, e1, name_gas_net_from="a", name_gas_net_to="b", order=orders[0])
+    GasToGasConversion(mn, s2, src_c, e2, name_gas_net_from="a", name_gas_net_to="c", order=orders[1])
+    T = int(rng.integers(3, 7))
+    prof = pd.DataFrame({"s1": rng.uniform(0.01, 0.2, T), "s2": rng.uniform(0.01, 0.2, T)})
+    control.ConstControl(a, element="sink", variable="mdot_kg_per_s", element_index=[s1, s2], data_source=DFData(prof),
+                         profile_name=["s1", "s2"])
+    steps = [int(x) for x in rng.permutation(T)[:int(rng.integers(2, T + 1))]]
+    ows = {k: OutputWriter(n, steps, output_path=None, log_variables=[("res_junction", "p_bar"), ("res_source", "mdot_kg_per_s")])
+           for k, n in (("b", b), ("c", c))}
+    try:
+        run_ts_mn(mn, time_steps=steps, max_iter_hyd=60, verbose=False)
+    except Exception as e:
+        return {"status": "skip:" + type(e).__name__}
+    fails = []
+    for key, fl, src, col, eff, p0 in (("b", fluids[1], src_b, "s1", e1, 20.0), ("c", fluids[2], src_c, "s2", e2, 16.0)):
+        for i, t in enumerate(steps):
+            feed = float(prof[col].values[t]) * (hhv["a"] / hhv[key]) * eff
+            ref, jr = _gas_member(pp, fl, p0)
+            pp.create_source(ref, jr[2] if key == "b" else jr[1], feed)
+            pp.pipeflow(ref, max_iter_hyd=60)
+            logged = np.asarray(ows[key].np_results["res_junction.p_bar"][i], float)
+            lsrc = float(np.asarray(ows[key].np_results["res_source.mdot_kg_per_s"][i], float)[0])
+            if abs(lsrc - feed) > 1e-12 * (1 + abs(feed)) or not np.allclose(logged, ref.res_junction.p_bar.values, rtol=1e-10, atol=1e-11):
+                fails.append({"fingerprint": "C13:multinet-step-differs-from-standalone:%s" % ("first-order" if (key == "b") == (orders[0] == 0) else "later-order"),
+                              "clause": "logged step = stand-alone pipeflow with that step's values (multi-energy time series)",
+                              "detail": {"member_net": key, "position": i, "time_step": t, "logged_feed_in": lsrc, "expected_feed_in": feed,
+                                         "logged_p": logged[:3].tolist(), "standalone_p": ref.res_junction.p_bar.values[:3].tolist()}})
+                break
+        if fails:
+            break
+    return {"status": "ok", "failures": fails, "hash": "mn" + str(sorted(case.items())), "nontrivial": True, "tags": ["multinet"],
+            "sample": dict(case, steps=steps, fluids=fluids)}
 
 
 def search(ctx, escalate=False):
